@@ -4,6 +4,7 @@ import (
 	"encoding/json"
 	"fmt"
 	"os"
+	"strings"
 
 	"mltwist/verifh/emu"
 	"mltwist/verifh/eng"
@@ -29,6 +30,10 @@ type c03Case struct {
 	// Data: the image has a further block of 4 words at 0x3000 that is data (never executed;
 	// stores into it are ordinary stores): Init.DataImage names it.
 	Data bool `json:"data_block,omitempty"`
+	// AfterRefusal: a step the emulator refuses because its access ends at or wraps around 2^64
+	// (the known findings) is not the end of the run: the instruction pointer is moved to the
+	// next instruction in both machines and the run goes on — a refusal must leave nothing behind
+	AfterRefusal bool `json:"after_refusal,omitempty"`
 }
 
 const (
@@ -101,8 +106,17 @@ func c03Run(c c03Case, monitor func(m *emu.Machine) *eng.Fail) (f *eng.Fail, ste
 	if err != nil {
 		return nil, 0, "emu: " + err.Error()
 	}
+	refused := false
 	for s := 0; s < c.Steps; s++ {
 		d, done := m.Step()
+		if d != nil && c.AfterRefusal && strings.HasPrefix(d.Class, "error-on-access-") {
+			refused = true
+			m.SkipInstruction()
+			continue
+		}
+		if d != nil && refused {
+			d.Class += " (after a refused step)"
+		}
 		if d != nil {
 			if monitor != nil {
 				// let the monitor see the requests of the failing step as well
@@ -158,7 +172,7 @@ func c03Enumerate(r *eng.Run, f func(c c03Case)) {
 func init() {
 	checks["C03"] = eng.Check{
 		Hist: true,
-		Rule: "every RV64IMA program of <=3 (thorough 4) instructions over a 36-word alphabet built to collide (three writers of x1, negative immediates, mul/div, sd/sw/sh/sb to overlapping offsets of one base, loads inside one store / across two stores / across a store and never-written memory / inside the image / across the image start, addw (32-bit register read) followed by a 64-bit reader, amoadd.w, lr.w, sc.w, sc.w/amoswap.w using ONE register as address and data, sd/sw/amoswap.w storing x0, add/ld/sd/jalr/amoadd.w whose destination is their own source or base register, beq forward, jal backward, jalr to a register, pseudo-jump jal +4, csrrw) followed by 4 nops, through the real pipeline (elf block store -> parser -> deps.NewCode -> emulator with Overlay(Bytes(image), Sparse)); run for <=8 steps from 4 initial states (small values; full 64-bit values with an indirect jump to a mid-instruction address; pre-loaded registers/memory with a jump outside the code; data area above 2^32) supplied by the state provider. After every step pc, every register the emulator knows, every written or supplied memory byte and the step report (register/memory reads and writes with values, as sets) are compared with the reference interpreter; Step must fail exactly when pc is not an instruction start. Plus 8 three-instruction programs whose middle instruction stores to / loads from the last bytes of the address space (ending exactly at 2^64, or wrapping around it). Plus 6 programs on an image of two blocks with a one-word hole between them (loads crossing image, unknown memory and image). Plus save / clobber-a-part / restore on a DATA block of the image: a value loaded from image data is stored back over a narrower store into the same place (every width pair 2,4,8 over 1,2,4 and every offset; also another value restored; also without the narrower store) and read back. PROC conformance: 8 programs (store/load back, image read and store over the image, supplied memory partially overwritten, x0 stores, M and A instructions) emulated by the REAL BINARY under a pseudo-terminal (entry, e, one step per instruction, every state prompt answered from the initial state; also with the emulation left and started again): the register view and the memory view read off the screen must show the reference machine's registers and memory. states = program x initial state; transitions = steps executed. Non-trivial = run of >=3 steps.",
+		Rule: "every RV64IMA program of <=3 (thorough 4) instructions over a 36-word alphabet built to collide (three writers of x1, negative immediates, mul/div, sd/sw/sh/sb to overlapping offsets of one base, loads inside one store / across two stores / across a store and never-written memory / inside the image / across the image start, addw (32-bit register read) followed by a 64-bit reader, amoadd.w, lr.w, sc.w, sc.w/amoswap.w using ONE register as address and data, sd/sw/amoswap.w storing x0, add/ld/sd/jalr/amoadd.w whose destination is their own source or base register, beq forward, jal backward, jalr to a register, pseudo-jump jal +4, csrrw) followed by 4 nops, through the real pipeline (elf block store -> parser -> deps.NewCode -> emulator with Overlay(Bytes(image), Sparse)); run for <=8 steps from 4 initial states (small values; full 64-bit values with an indirect jump to a mid-instruction address; pre-loaded registers/memory with a jump outside the code; data area above 2^32) supplied by the state provider. After every step pc, every register the emulator knows, every written or supplied memory byte and the step report (register/memory reads and writes with values, as sets) are compared with the reference interpreter; Step must fail exactly when pc is not an instruction start. Plus 8 three-instruction programs whose middle instruction stores to / loads from the last bytes of the address space (ending exactly at 2^64, or wrapping around it), and 42 programs in which such a refused instruction (plain and atomic) is skipped by setting the instruction pointer and the instructions behind it — and the same refused instruction once more — must behave as on the reference machine. Plus 6 programs on an image of two blocks with a one-word hole between them (loads crossing image, unknown memory and image). Plus save / clobber-a-part / restore on a DATA block of the image: a value loaded from image data is stored back over a narrower store into the same place (every width pair 2,4,8 over 1,2,4 and every offset; also another value restored; also without the narrower store) and read back. PROC conformance: 8 programs (store/load back, image read and store over the image, supplied memory partially overwritten, x0 stores, M and A instructions) emulated by the REAL BINARY under a pseudo-terminal (entry, e, one step per instruction, every state prompt answered from the initial state; also with the emulation left and started again): the register view and the memory view read off the screen must show the reference machine's registers and memory. states = program x initial state; transitions = steps executed. Non-trivial = run of >=3 steps.",
 		Assumptions: []string{
 			"programs storing into their own image are skipped (property excludes self-modification)",
 			"the step report is compared as sets; a register read at several widths may be reported at any of them",
@@ -199,6 +213,25 @@ func init() {
 					if f != nil {
 						r.Report(f)
 						r.Outcome(f.Sig)
+					}
+				}
+			}
+			// ... and what follows a refused step: the refused instruction (plain and atomic accesses
+			// ending at / wrapping around 2^64) is skipped by setting the instruction pointer, the
+			// instructions behind it must execute as on the reference machine
+			for _, w := range []uint32{prog.Sd(1, 24, 0), prog.Ld(7, 24, 0), prog.Lw(7, 24, 4), prog.AmoaddW(7, 24, 1), prog.R(0, 1, 24, 3, 7, 0x2f) /* amoadd.d x7,x1,(x24) */, prog.LrW(7, 24), prog.ScW(7, 24, 1)} {
+				for _, a24 := range []int64{-8, -4, -2} {
+					for _, in := range c03Inits[:2] {
+						c := c03Case{Words: []uint32{prog.Addi(1, 0, 5), prog.Addi(24, 0, a24), w, prog.Addi(2, 1, 1), w, prog.Addi(3, 2, 1)}, Init: in, Steps: 7, Entry: c03Base, AfterRefusal: true}
+						f, steps, _ := c03Run(c, nil)
+						r.Eval(1)
+						r.State(1)
+						r.Trace(1)
+						r.Trans(steps)
+						if f != nil {
+							r.Report(f)
+							r.Outcome(f.Sig)
+						}
 					}
 				}
 			}
